@@ -112,7 +112,8 @@ pub fn drive(seed: u64, tier: &str, stim: Option<&str>, out: &mut Out) {
     let mut ctx = Ctx::new();
     let mut n = 0u64;
     // 1. archive writers: the same logical archive through the sync and the async value
-    let sizes: Vec<usize> = if tier == "thorough" { vec![0, 1, 7, 60, 300, 4300, 9000] } else { vec![0, 7, 300, 4300] };
+    // 13 = the "large data" archive: 13 tiles of 250 to 350 KB, about 3.9 MB of tile data
+    let sizes: Vec<usize> = if tier == "thorough" { vec![0, 1, 7, 13, 60, 300, 4300, 9000] } else { vec![0, 7, 13, 300, 4300] };
     for &sz in &sizes {
         for ic in 1u8..=4 {
             if sz > 1000 && ic > 2 && tier != "thorough" {
@@ -127,7 +128,14 @@ pub fn drive(seed: u64, tier: &str, stim: Option<&str>, out: &mut Out) {
                             id += 1 + rng.below(1 << 16) * (rng.below(3) / 2);
                         }
                         first = false;
-                        let c = if i % 6 == 5 { vec![1, 2, 3] } else { let l = 1 + rng.below(200) as usize; rng.bytes(l) };
+                        let c = if sz == 13 {
+                            rng.bytes(250_001 + 7_777 * i)
+                        } else if i % 6 == 5 {
+                            vec![1, 2, 3]
+                        } else {
+                            let l = 1 + rng.below(200) as usize;
+                            rng.bytes(l)
+                        };
                         (id, c)
                     })
                     .collect()
